@@ -118,6 +118,26 @@ Definition signer_verify (K : bytes -> bytes) (cr : Signer.crypto) (sig msg : by
       end
   end.
 
+(* ---- handshake.go with the real signature check plugged in ---------------------------------------------------
+   model/Handshake.v takes signer.Verify as an oracle without a crash outcome.  Here the oracle is
+   signer_verify (which has one), and the run is a crash exactly when one of the Verify calls the handler
+   made is one: Handle / Handshake call nothing else that can panic (see Properties/C06.v). *)
+From MevVerif Require model.Handshake.
+Definition vres_of (o : outcome (bool * bytes)) : Handshake.vres :=
+  match o with Ok (v, a) => Handshake.VOk v a | _ => Handshake.VErr end.
+Definition is_panic {A} (o : outcome A) : bool := match o with Panic => true | _ => false end.
+Definition hs_oracles (K : bytes -> bytes) (cr : Signer.crypto) (pid : Handshake.pres) (reg : bytes -> bool)
+  : Handshake.oracles :=
+  {| Handshake.verify := fun sig data => vres_of (signer_verify K cr sig data);
+     Handshake.addr_of_pid := pid; Handshake.registered := reg |}.
+Definition hs_guard K cr (r : Handshake.run) : outcome Handshake.run :=
+  if existsb (fun sd => is_panic (signer_verify K cr (fst sd) (snd sd))) (Handshake.verifies r) then Panic else Ok r.
+(* Service.Handle / Service.Handshake over a script of incoming frames *)
+Definition handle_outcome K cr c pid reg wfail script : outcome Handshake.run :=
+  hs_guard K cr (Handshake.handle c (hs_oracles K cr pid reg) wfail script).
+Definition handshake_outcome K cr c pid reg wfail script : outcome Handshake.run :=
+  hs_guard K cr (Handshake.handshake c (hs_oracles K cr pid reg) wfail script).
+
 (* ---- handshake -------------------------------------------------------------------------------------- *)
 (* what the k-th ReadMsg of Handle / Handshake yields *)
 Inductive hs_read :=
@@ -193,7 +213,11 @@ Inductive entry_input :=
 | ETopologyPeers (types : list Z)
 (* GetEthAddressFromPeerID on a peer id of kind: 0 secp256k1, 1 Ed25519, 2 RSA, 3 ECDSA-P256, 4 secp256k1-shaped
    identity id whose key bytes are not a curve point, 5 hashed (non-identity) id, 6 the empty id, 7 other bytes *)
-| EPeerIDAddress (kind : N).
+| EPeerIDAddress (kind : N)
+(* in one process, several goroutines at once: the block list (blockPeer / isBlocked / BlockedPeers, with timed
+   blocks that expire at once) resp. the protocol matcher on version strings never seen before *)
+| EBlockStress
+| EMatchStress.
 
 (* ---- where the Go code panics ---------------------------------------------------------------------- *)
 
@@ -246,6 +270,7 @@ Definition panics_gen (f : fixes) (i : entry_input) : bool :=
   | EPeerType _ => false
   | ETopologyPeers _ => false
   | EPeerIDAddress _ => false
+  | EBlockStress | EMatchStress => false
   end.
 
 Definition panics : entry_input -> bool := panics_gen fixes_now.
@@ -274,7 +299,7 @@ Definition expected_result (i : entry_input) : option N :=
   | EReadHeader (FOversized | FTruncated | FEof) => Some 1
   (* end to end the result class is the liveness probe: after the hostile exchange an honest
      peer still completes its handshake and is registered (0) *)
-  | EE2EInbound _ _ | EE2EOutbound _ _ | EE2EStress _ | EPeersListStalled _ _ => Some 0
+  | EE2EInbound _ _ | EE2EOutbound _ _ | EE2EStress _ | EPeersListStalled _ _ | EBlockStress | EMatchStress => Some 0
   | EPeerIDAddress k => if k =? 0 then Some 0 else if k =? 7 then None else Some 1
   | _ => None
   end.
@@ -303,6 +328,8 @@ Definition entry_name (i : entry_input) : string :=
   | EPeerType _ => "peer-type"
   | ETopologyPeers _ => "topology-peers"
   | EPeerIDAddress _ => "peer-id-address"
+  | EBlockStress => "block-stress"
+  | EMatchStress => "match-stress"
   end%string.
 
 (* the clause key of an observed panic: the three repaired defects keep the key under which they
@@ -338,4 +365,5 @@ Definition hostile (i : entry_input) : bool :=
   | EPeerType t => (t <? 0)%Z || (2 <? t)%Z
   | ETopologyPeers ts => existsb (fun t => (t <? 0)%Z || (2 <? t)%Z) ts
   | EPeerIDAddress k => negb (k =? 0)
+  | EBlockStress | EMatchStress => true
   end.
